@@ -138,6 +138,11 @@ def _cat(n):
         # texts ending in a backslash (kept apart from the delimiter by a blank), line-boundary characters in a comment
         (f"@comment{{tex {n}\\ }}", ("comment", f"tex {n}\\")),
         (f"@comment{{l1\x0cl2\u2028l3\rl4 {n}}}", ("comment", f"l1\x0cl2\u2028l3\rl4 {n}")),
+        # field names of ONE entry that differ only in letter case are different field names
+        (f"@misc{{v{n}, Title = {{1}}, title = {{2}}, TITLE = {{3}}, tItle = 4}}", ("entry", "misc", f"v{n}", (("Title", "{1}"), ("title", "{2}"), ("TITLE", "{3}"), ("tItle", "4")))),
+        # a preamble and a braced value ending in a backslash (a TeX control space before the delimiter)
+        (f"@preamble{{tex {n}\\ }}", ("preamble", f"tex {n}\\")),
+        (f"@string{{w{n} = {{x{n}\\ }}}}", ("string", f"w{n}", f"{{x{n}\\ }}")),
     ]
 
 
